@@ -38,6 +38,9 @@ CORPUS = [  # (cfg, [sources...]) — past crashes and their neighbours; runs fi
     # edit's spelling runs before the st restrictions are switched on — nothing of what it saw may steer the restricted parse
     ("T", ["^sta=1?3d:2"]), ("T", ["^st力量=1 ? 3d : 2"]), ("T", ["c = 1; x = 2; y = 3", "^st力量=c ? x & y : 2"]), ("T", ["^st力量:2+(3|4)"]), ("T", ["^st力量:2+(3d)"]),
     ("T", ["^st力量=0 ? 3d : 2 敏捷=1 ? 2d : 3"]), ("T", ["^st&手枪=1 ? 3d : 2", "手枪"]), ("T", ["^st力量*2:1 ? 3d : 2"]), ("-", ["^sta=1?3d:2"]),
+    # an unterminated string / template where an operand is expected, inside constructs that keep counters and jump offsets of their own
+    ("-", ["0 ? 2, 0 ? 3 + `a{1 }"]), ("-", ["0 ? 2, 0 ? 3 + `a{1"]), ("-", ["1 ? 2, 0 ? 3 + 'abc"]), ("-", ["[1, 2 + 'abc"]), ("-", ["5\n`abc{d6}"]), ("-", ["[x,2]\n[x,2]"]),
+    ("-", ["f(1, `a{2"]), ("-", ["{'a': 1 + \"b"]), ("-", ["`x{ 1 ? 2, 0 ? 3 + 'q }`"]), ("-", ["if 1 { 0 ? 2, 0 ? 3 + `a{1 }"]),
     ("-", ["[-9223372036854775807..2]"]), ("-", ["[2..-9223372036854775807]"]), ("-", ["[-9223372036854775807..9223372036854775807]"]), ("-", ["[9223372036854775807..-2]"]),
     ("-", ["x=1; i=0; while x { func f() { 1;2;3; break }; i=i+1; if i > 3 { x = 0 } }"]), ("-", ["while 1 { func f() { break } }"]),
     ("-", ["i=0; while i<3 { i=i+1; func f() { continue }; f() }; i"]), ("-", ["i=0; while i<3 { i=i+1; &c = (1; break) }"]), ("-", ["i=0; while i<3 { i=i+1; &c = i; if c > 1 { break } }; i"]),
